@@ -81,7 +81,7 @@ func main() {
 		fmt.Fprintln(os.Stderr, "need -out")
 		os.Exit(2)
 	}
-	w, err := casefile.New(*out, "C07", "From C07 Require Import Model CaseDefs.\nLocal Open Scope N_scope.", 60)
+	w, err := casefile.New(*out, "C07", "From VLib Require Import CaseLib.\nFrom C07 Require Import Model CaseDefs.\nLocal Open Scope N_scope.", 60)
 	if err != nil {
 		panic(err)
 	}
@@ -232,8 +232,9 @@ func finish(e *Exec, in *Input, obs []Obs, class string) *Result {
 		return res
 	}
 	e.Close()
+	curASTs = e.asts
 	cls, nontriv, counts := classify(in, obs)
-	if class == "" || class == "sched" {
+	if class == "" || class == "sched" || cls != "sched" {
 		res.Class = cls
 	}
 	res.Nontrivial = nontriv
